@@ -113,7 +113,7 @@ func init() {
 				c.Count("wrap_restart_cases", 1)
 				return
 			}
-			pp := pubParams{NPub: 1 + c.Rng.Intn(16), Levels: []int{2}, Conc: 1 + c.Rng.Intn(2), Budget: 1 + c.Rng.Intn(8), Yield: c.Rng.Intn(2) == 0, SettleP: c.Rng.Float64(), BigP: 0.02}
+			pp := pubParams{NPub: 1 + c.Rng.Intn(16), Levels: []int{2}, Conc: 1 + c.Rng.Intn(2), Budget: 1 + c.Rng.Intn(8), Yield: c.Rng.Intn(2) == 0, SettleP: c.Rng.Float64(), BigP: 0.02, CleanSession: c.Rng.Intn(3) == 0}
 			if c.Rng.Intn(4) == 0 {
 				pp.Levels = []int{1, 2}
 			}
@@ -161,7 +161,7 @@ func init() {
 			if c.Rng.Intn(2) == 0 {
 				conc = 2 + c.Rng.Intn(7)
 			}
-			pp := pubParams{NPub: conc * (1 + c.Rng.Intn(10)), Levels: [][]int{{1}, {2}, {1, 2}}[c.Rng.Intn(3)], Conc: conc, Budget: c.Rng.Intn(7), Yield: true, SettleP: c.Rng.Float64() * 0.5, BigP: 0.02}
+			pp := pubParams{NPub: conc * (1 + c.Rng.Intn(10)), Levels: [][]int{{1}, {2}, {1, 2}}[c.Rng.Intn(3)], Conc: conc, Budget: c.Rng.Intn(7), Yield: true, SettleP: c.Rng.Float64() * 0.5, BigP: 0.02, CleanSession: c.Rng.Intn(4) == 0}
 			if c.Rng.Intn(4) == 0 {
 				pp.Restarts = 1 + c.Rng.Intn(2)
 			}
